@@ -429,6 +429,15 @@ func cmdCheck(args []string) int {
 					continue
 				}
 			}
+			if orphan := orphanContractIn(e, f.o.Fn); orphan != "" && callsNewFunction(e, f.o.Fn, knownFns) {
+				// a written contract of this package names a function that no longer exists while this function calls
+				// one that is new: an annotated function was renamed (or replaced); the contract file has to follow
+				claimed--
+				undecided++
+				needsContract = append(needsContract, f.o.Name+" (contract of "+orphan+" has no function any more)")
+				fmt.Printf("NEEDS-CONTRACT property=%s %s [%s]: the contract of %s has no function any more and %s calls a new function (renamed?) (not reported as a violation)\n", id, f.o.Name, f.o.Answer, orphan, f.o.Fn)
+				continue
+			}
 			if len(f.r.StaleClauses) > 0 {
 				// a written loop invariant of this function names a local that no longer exists (renamed or removed): the
 				// annotation has to follow the rename before anything can be concluded from the failing proof
@@ -723,4 +732,27 @@ func callsNewFunction(e *Engine, key string, known map[string]bool) bool {
 		return false
 	}
 	return visit(fn)
+}
+
+// orphanContractIn: a written (non-default) contract of the package of fn whose function does not exist (any more)
+func orphanContractIn(e *Engine, fnKeyStr string) string {
+	fn := e.Fn(fnKeyStr)
+	if fn == nil || fn.Pkg == nil {
+		return ""
+	}
+	pkg := fn.Pkg.Pkg.Path()
+	var keys []string
+	for k, c := range e.Contracts {
+		if c.Default || c.PkgPath != pkg || strings.Contains(k, "$") {
+			continue
+		}
+		if e.Fn(k) == nil {
+			keys = append(keys, k)
+		}
+	}
+	sort.Strings(keys)
+	if len(keys) > 0 {
+		return keys[0]
+	}
+	return ""
 }
